@@ -257,12 +257,13 @@ def NonLocal (E : List Stmt) (v : VName) : Prop := ∃ s, s ∈ E ∧ declaresNL
 def LocalDecl (E : List Stmt) (v : VName) : Prop := ∃ s, s ∈ E ∧ declaresL s v
 def HasSub (E : List Stmt) (v : VName) : Prop := ∃ s, s ∈ E ∧ defVar s = some v
 
-/-- block order: before every element-wise update of `v`, the program has already seen a substitution
-    to `v` and a non-local declaration of `v`, if it has any at all -/
+/-- block order: before every element-wise update of `v`, the program has already seen the declaration of `v` if it is a signal or
+    component, and otherwise a substitution to `v` if it has any at all (a signal array is assigned element by element, `out[i] <-- ..`,
+    without an earlier assignment: its degree comes from the declaration) -/
 def PosOK (E : List Stmt) : List Stmt → List Stmt → Prop
   | _, [] => True
   | pre, s :: r =>
-    (∀ v, v ∈ basesS s → (HasSub E v → ∃ t, t ∈ pre ∧ defVar t = some v) ∧
+    (∀ v, v ∈ basesS s → (HasSub E v → ¬ NonLocal E v → ∃ t, t ∈ pre ∧ defVar t = some v) ∧
                           (NonLocal E v → ∃ t, t ∈ pre ∧ declaresNL t v)) ∧
     PosOK E (pre ++ [s]) r
 
@@ -670,7 +671,7 @@ structure GInvD (E : List Stmt) (ps : List VName) (fn : Bool) (env : DegEnv) (M 
 
 /-- what the positional hypothesis gives for the statement being visited -/
 def PreOK (E : List Stmt) (Done : Stmt → Prop) (B : List VName) : Prop :=
-  ∀ v, v ∈ B → (HasSub E v → ∃ t, Done t ∧ defVar t = some v) ∧ (NonLocal E v → ∃ t, Done t ∧ declaresNL t v)
+  ∀ v, v ∈ B → (HasSub E v → ¬ NonLocal E v → ∃ t, Done t ∧ defVar t = some v) ∧ (NonLocal E v → ∃ t, Done t ∧ declaresNL t v)
 
 /-- in every reachable state the environment agrees, with freshness for the update bases `B` -/
 theorem agreeD_of {E : List Stmt} {ps : List VName} {fn : Bool} {env : DegEnv} {M Done : Stmt → Prop}
@@ -683,15 +684,15 @@ theorem agreeD_of {E : List Stmt} {ps : List VName} {fn : Bool} {env : DegEnv} {
   intro v hvB hnone hna
   rw [hdeg] at hnone
   obtain ⟨p1, p2⟩ := hpre v hvB
-  have hns : ¬ HasSub E v := by
-    intro hs
-    obtain ⟨t, ht, hd⟩ := p1 hs
-    have := hasg v (h.doneSub t ht v hd)
-    rw [this] at hna; cases hna
   have hnl : ¬ NonLocal E v := by
     intro hn
     obtain ⟨t, ht, hd⟩ := p2 hn
     exact h.doneDecl t ht v hd hnone
+  have hns : ¬ HasSub E v := by
+    intro hs
+    obtain ⟨t, ht, hd⟩ := p1 hs hnl
+    have := hasg v (h.doneSub t ht v hd)
+    rw [this] at hna; cases hna
   have hnp : v ∉ ps := fun hp => h.params v hp hnone
   rcases reachD_origin E ps fn δ hr v hnl hnp with h0 | ⟨δ₁, a, ty, op, rhe, _, hmem, _⟩
   · exact h0
@@ -1099,8 +1100,8 @@ theorem stmts_foldD (E : List Stmt) (ps : List VName) (fn : Bool) (wf : WfD E ps
       have hp : PreOK E Done (basesS s) := by
         intro v hv
         obtain ⟨p1, p2⟩ := hpos.1 v (by rw [basesS_eraseS]; exact hv)
-        refine ⟨fun hs => ?_, fun hn => ?_⟩
-        · obtain ⟨t, ht, hd⟩ := p1 hs; exact ⟨t, hpre rfl t ht, hd⟩
+        refine ⟨fun hs hnl => ?_, fun hn => ?_⟩
+        · obtain ⟨t, ht, hd⟩ := p1 hs hnl; exact ⟨t, hpre rfl t ht, hd⟩
         · obtain ⟨t, ht, hd⟩ := p2 hn; exact ⟨t, hpre rfl t ht, hd⟩
       have hm := microD E ps fn wf env M Done h s (hr _ List.mem_cons_self) hp
       obtain ⟨M', Done', h1, h2, h3, h4, h5⟩ := ih (done ++ [(degStmt env s).1]) (degStmt env s).2.1 (degStmt env s).2.2
@@ -1598,7 +1599,7 @@ instance (E : List Stmt) (a b : VName) : Decidable (singleOk E a b) := by unfold
 def posOKB (E : List Stmt) : List Stmt → List Stmt → Bool
   | _, [] => true
   | pre, s :: r =>
-    (basesS s).all (fun v => (!hasSubB E v || pre.any (fun t => defVar t == some v)) &&
+    (basesS s).all (fun v => (!hasSubB E v || nonLocalB E v || pre.any (fun t => defVar t == some v)) &&
                              (!nonLocalB E v || pre.any (fun t => declaresNLB t v))) &&
     posOKB E (pre ++ [s]) r
 
@@ -1613,9 +1614,10 @@ theorem posOKB_sound (E : List Stmt) : ∀ (rest pre : List Stmt), posOKB E pre 
     intro v hv
     have := h.1 v hv
     simp only [Bool.and_eq_true, Bool.or_eq_true, Bool.not_eq_true', List.any_eq_true, beq_iff_eq] at this
-    refine ⟨fun hs => ?_, fun hn => ?_⟩
-    · rcases this.1 with h1 | h1
+    refine ⟨fun hs hnl => ?_, fun hn => ?_⟩
+    · rcases this.1 with (h1 | h1) | h1
       · rw [(hasSubB_iff E v).mpr hs] at h1; cases h1
+      · exact absurd ((nonLocalB_iff E v).mp h1) hnl
       · exact h1
     · rcases this.2 with h1 | h1
       · rw [(nonLocalB_iff E v).mpr hn] at h1; cases h1
